@@ -530,6 +530,20 @@ func init() {
 		d := fr.concInt(a[0], "time.After duration")
 		ch := fr.w.newChan(1, fr.fn.Signature.Results().At(0).Type().Underlying().(*types.Chan).Elem())
 		w := fr.w
+		// a goroutine that keeps asking for zero-duration timers at one instant of virtual time
+		// spins (CPU exhaustion, which no property here is about); after 20 rounds its next
+		// timer never fires, so that the rest of the program can be explored
+		if d <= 0 && fr.g != nil {
+			if fr.g.zeroTimerAt == w.sched.now {
+				fr.g.zeroTimers++
+			} else {
+				fr.g.zeroTimerAt, fr.g.zeroTimers = w.sched.now, 1
+			}
+			if fr.g.zeroTimers > 20 {
+				w.ex.noteOnce("a goroutine spinning on zero-duration timers was parked after 20 rounds (" + fr.fn.String() + ")")
+				return ch
+			}
+		}
 		w.sched.addTimer(d, func() {
 			if len(ch.buf) < ch.cap {
 				w.timerSend(ch, w.timeValue())
